@@ -158,7 +158,7 @@ def run(ctx: common.Ctx):
         ax = "~" if axis is None else ("(" + ",".join(map(str, axis)) + ")" if isinstance(axis, tuple) else str(axis))
         lines.append(f"reduce_shape {','.join(map(str, shape)) or '-'} {ax} {1 if keepdims else 0}")
     model = common.model(lines)
-    for job, r, m in zip(jobs, res, model):
+    for (job, m), r in tables.pairs(ctx, list(zip(jobs, model)), res):
         fn, form, dtype, shape, axis, keepdims, extra, seed = job
         if isinstance(r, tables.Crashed):
             ctx.violation(f"{fn}/interpreter-crash", f"{job}: worker died", {"job": repr(job)})
